@@ -131,7 +131,7 @@ case("unswitch kept: the condition reads the element", {"m": "def f(d):\n    ret
 
 # -- FWD (copies, mutable displays, effects) ------------------------------------------------------------------------------------
 case("copy forwarded: the source is not assigned before the last use", {"m": "def f(r):\n    a, v = r()\n    w = v\n    if w == 1:\n        return w\n    a, v = r()\n    return v\n"}, "m", "f", lacks=["w = v"])
-case("copy kept: the source is assigned between the copy and a use", {"m": "def f(r):\n    a, v = r()\n    w = v\n    a, v = r()\n    return (w, v)\n"}, "m", "f", has=["w = v"])
+case("copy across a re-assignment of its source: the first value is what the copy keeps", {"m": "def f(r):\n    a, v = r()\n    w = v\n    a, v = r()\n    return (w, v)\n"}, "m", "f", has=["a, w = r()", "return (w, v__w2)"])
 case("mutable display is not duplicated", {"m": "def f(g):\n    xs = []\n    g(xs)\n    g(xs)\n    return xs\n"}, "m", "f", has=["xs = []"])
 case("call is not moved across another effect", {"m": "def f(g, h):\n    a = g()\n    h()\n    return a\n"}, "m", "f", has=["a = g()"])
 case("dead store of a call is kept", {"m": "def f(g):\n    a = g()\n    a = 1\n    return a\n"}, "m", "f", has=["g()"])
@@ -249,7 +249,7 @@ case("copy-in / copy-out kept: the function has a try statement", {"m": _CIO + "
      "m", "f", has=["_i1_i"])
 
 case("a literal store overwritten before any read is dropped", {"m": "def f(g):\n    v = None\n    g()\n    a, v = g()\n    return v\n"}, "m", "f", lacks=["v = None"])
-case("overwritten store kept: a statement in between reads it", {"m": "def f(g):\n    v = None\n    g(v)\n    a, v = g()\n    return v\n"}, "m", "f", has=["v = None"])
+case("overwritten store kept: a statement in between reads it", {"m": "def f(g):\n    v = None\n    g(v)\n    a, v = g()\n    return v\n"}, "m", "f", has=["g(None)"])
 case("overwritten store kept: the overwrite is conditional", {"m": "def f(g, c):\n    v = None\n    if c:\n        v = g()\n    return v\n"}, "m", "f", has=["None"])
 case("for-else value-or-None: the test after the loop moves into the else-block", {"m": "class A(object):\n    def _s(self, ks, r):\n        for k in ks:\n            c, m = r(k)\n            if c == 1:\n                return bytes(m)\n        return None\n    def f(self, ks, r, o):\n        m = self._s(ks, r)\n        if m is None:\n            m = o()\n        return (True, m)\n"},
      "m", "f", has=["for ", "o()"], lacks=["is None"])
@@ -265,6 +265,14 @@ case("copy-in kept: the caller reads its variable after the call", {"m": _CI + "
      "m", "f", has=["_i1_a"])
 case("copy-in kept: the call sits in a loop that reads the variable", {"m": _CI + "    def f(self, ks, r, g):\n        c, a = r(0)\n        while g(a):\n            m = self._h(ks, a, r)\n        return (True, m)\n"},
      "m", "f", has=["_i1_a"])
+
+# -- FLAGEQ / COPYPROP ------------------------------------------------------------------------------------------------------------------------------
+case("flageq: `v is None` is the condition under which v was set to None", {"m": "def f(h, r, k):\n    c = h[0]\n    if c == 7:\n        i = h[1:]\n        d = None\n    else:\n        i = h[1:-1]\n        d = bytes(r())\n    if k(c):\n        if d is None:\n            return (c, i, None)\n        return (c, i, d)\n    raise ValueError(d)\n"},
+     "m", "f", has=["if c == 7:\n            return"], lacks=["is None"])
+case("flageq kept: the other value may be None", {"m": "def f(h, r, k):\n    c = h[0]\n    if c == 7:\n        d = None\n    else:\n        d = r()\n    if k(c):\n        if d is None:\n            return (c, None)\n        return (c, d)\n    raise ValueError(d)\n"},
+     "m", "f", has=["is None"])
+case("flageq kept: the condition's variable is re-bound later", {"m": "def f(h, r, k):\n    c = h[0]\n    if c == 7:\n        d = None\n    else:\n        d = bytes(r())\n    c = k(c)\n    if d is None:\n        return (c, None)\n    return (c, d)\n"},
+     "m", "f", has=["is None"])
 
 
 def main():
